@@ -1,7 +1,7 @@
 use crate::db::TcpIndexKey;
 use crate::db_matching_trait::{DatabaseSignature, MatchQuality, ObservedFingerprint};
 use crate::observable_signals::TcpObservation;
-use crate::tcp::{self, IpVersion, PayloadSize};
+use crate::tcp::{self, IpVersion, PayloadSize, Quirk};
 
 impl TcpObservation {
     pub(crate) fn distance_olen(&self, other: &tcp::Signature) -> Option<u32> {
@@ -37,7 +37,18 @@ impl TcpObservation {
     }
 
     pub(crate) fn distance_quirks(&self, other: &tcp::Signature) -> Option<u32> {
-        if self.quirks == other.quirks {
+        // df, id+, id- and 0+ are "ignored for IPv6", flow is "ignored for IPv4" (see `Quirk`):
+        // like p0f, leave the signature's quirks that cannot apply to the observed IP version
+        // out of the comparison.
+        let applies = |quirk: &&Quirk| match self.version {
+            IpVersion::V6 => !matches!(
+                quirk,
+                Quirk::Df | Quirk::NonZeroID | Quirk::ZeroID | Quirk::MustBeZero
+            ),
+            IpVersion::V4 => !matches!(quirk, Quirk::FlowID),
+            IpVersion::Any => true,
+        };
+        if self.quirks.iter().eq(other.quirks.iter().filter(applies)) {
             Some(tcp::TcpMatchQuality::High.as_score())
         } else {
             None
